@@ -27,9 +27,10 @@ const tFan = "TestExactlyOnce"
 type Case struct {
 	Construct string `json:"construct"`
 	N         int    `json:"n"`
-	Width     int    `json:"width"`   // workers / split width / buffer size / sources / readers
-	Dups      bool   `json:"dups"`    // input values repeat
+	Width     int    `json:"width"` // workers / split width / buffer size / sources / readers
+	Dups      bool   `json:"dups"`  // input values repeat
 	Buffered  int    `json:"chan_buffer,omitempty"`
+	Empties   int    `json:"leading_empty_sources,omitempty"` // MergeIterators: that many empty sources in front of the others
 	Yields    []int  `json:"yields"`
 	Procs     int    `json:"gomaxprocs"`
 }
@@ -140,6 +141,16 @@ func runCase(c *Case) (got []int, ordered bool, why string) {
 				part = append(part, in[j])
 			}
 			srcs[i] = fun.SliceIterator(part)
+		}
+		if c.Empties > 0 {
+			// sources that end at once, before the later ones are even
+			// started
+			all := make([]*fun.Iterator[int], 0, c.Empties+len(srcs))
+			for i := 0; i < c.Empties; i++ {
+				all = append(all, fun.SliceIterator([]int{}))
+			}
+			srcs = append(all, srcs...)
+			ordered = false
 		}
 		drain(fun.MergeIterators(srcs...))
 	case "GenerateParallel":
@@ -268,6 +279,12 @@ func genCase(t *rapid.T) *Case {
 		Buffered:  rapid.IntRange(0, 3).Draw(t, "chanBuffer"),
 		Yields:    rapid.SliceOfN(rapid.IntRange(0, 4), 1, 6).Draw(t, "yields"),
 		Procs:     rapid.SampledFrom([]int{1, 2, 4, 16}).Draw(t, "gomaxprocs"),
+	}
+	if rapid.IntRange(0, 5).Draw(t, "wide") == 0 {
+		c.Width = rapid.SampledFrom([]int{12, 16, 32, 64}).Draw(t, "wideWidth")
+	}
+	if c.Construct == "MergeIterators" {
+		c.Empties = rapid.SampledFrom([]int{0, 0, 0, 1, 3, 30, 3000, 30000}).Draw(t, "leadingEmpties")
 	}
 	w := c.Width
 	switch rapid.IntRange(0, 7).Draw(t, "nKind") {
